@@ -22,6 +22,17 @@
 //!   change what the terminal shows before it has called the inner object. For the encoder wrapper only
 //!   the reads made in `inner.update()` and in the first `inner.get()` after it are compared (they
 //!   causally precede the write of that state); later ones are only required not to panic.
+//! * "Writing inner object" stratum (sub-checks `*-writing`), for every wrapper: the inner object WRITES
+//!   (`Settable::<Datum<State>>::set` / the command counterpart, fresh stamps) to terminals from inside
+//!   its methods — a servo reporting its measured state into the shaft terminal. Performed only where the
+//!   unchanged crate holds no borrow that forbids it, and conservatively: to the wrapper's OWN terminal
+//!   only inside `inner.update()` (during `inner.set` the unchanged actuator wrapper holds a shared
+//!   borrow of its terminal, so an own write there is outside what the code supports), to the connected
+//!   EXTERNAL terminal inside `update()`, `impl_set` and `get`. Oracle: the write neither panics nor
+//!   errs, the slot holds the datum immediately afterwards and (unless the statement says the wrapper
+//!   overwrites it: the encoder wrapper's own state slot when the getter is present) after the wrapper's
+//!   update; the monitor's slot model takes these writes as third-party writes, so the following
+//!   rounds' "what the terminal sees" includes them.
 //! * "Following" stratum (sub-checks `*-following`), for every wrapper: the wrapper's OWN terminal follows
 //!   a scripted state getter and a scripted command getter (present / absent, never erring; payload
 //!   stamps older / equal / newer than what the slot holds), so data reach it the way other devices
@@ -201,12 +212,66 @@ struct Probe<'a> {
     own: Option<&'a Term<'a>>,
     ext: Option<&'a Term<'a>>,
     log: Vec<Obs>,
+    /// writing stratum: terminals to write to, this round's script, which entries were performed, results
+    w_own: Option<&'a Term<'a>>,
+    w_ext: Option<&'a Term<'a>>,
+    script: Vec<WriteOp>,
+    done: Vec<bool>,
+    wlog: Vec<WriteRec>,
 }
-impl Probe<'_> {
+impl<'a> Probe<'a> {
+    fn new() -> Probe<'a> {
+        Probe { own: None, ext: None, log: Vec::new(), w_own: None, w_ext: None, script: Vec::new(), done: Vec::new(), wlog: Vec::new() }
+    }
     fn observe(&mut self, site: char) {
         let o = Obs { site, own: self.own.map(view), ext: self.ext.map(view) };
         self.log.push(o);
+        // scripted writes of this site, each performed once per round (on the first call of that method)
+        for k in 0..self.script.len() {
+            let op = self.script[k];
+            if op.site != site || self.done[k] {
+                continue;
+            }
+            let t = match if op.own { self.w_own } else { self.w_ext } {
+                Some(t) => t,
+                None => continue,
+            };
+            self.done[k] = true;
+            let (res, back_ok) = match op.d {
+                WDatum::S(ts, v) => {
+                    let d = Datum::new(Time(ts), st(v));
+                    let res = catch(|| <Terminal<E> as Settable<Datum<State>, E>>::set(&mut t.borrow_mut(), d));
+                    (res, catch(|| own_state(t)).map(|b| ds_same(&b, &Some(d))))
+                }
+                WDatum::C(ts, c) => {
+                    let d = Datum::new(Time(ts), c);
+                    let res = catch(|| <Terminal<E> as Settable<Datum<Command>, E>>::set(&mut t.borrow_mut(), d));
+                    (res, catch(|| own_command(t)).map(|b| dc_same(&b, &Some(d))))
+                }
+            };
+            self.wlog.push(WriteRec { idx: k, res, back_ok });
+        }
     }
+}
+#[derive(Clone, Copy, Debug, PartialEq)]
+enum WDatum {
+    S(i64, [f32; 3]),
+    C(i64, Command),
+}
+/// One scripted write of the inner object: in which of its methods, to which terminal, what.
+#[derive(Clone, Copy, Debug, PartialEq)]
+struct WriteOp {
+    site: char,
+    own: bool,
+    d: WDatum,
+}
+#[derive(Clone, Debug)]
+struct WriteRec {
+    idx: usize,
+    /// Err = the write panicked
+    res: Result<NothingOrError<E>, String>,
+    /// read-back with get_last_request immediately after the write: Ok(true) = the slot holds the datum
+    back_ok: Result<bool, String>,
 }
 /// What the monitor itself last wrote into the four slots (expected `get_last_request` values).
 #[derive(Clone, Copy, Default)]
@@ -418,6 +483,92 @@ fn judge_obs(rep: &mut Report, wrapper: &str, sub: &'static str, case: u64, roun
     }
     true
 }
+// ---- writing stratum -----------------------------------------------------------------------------
+/// Judge the writes the inner object performed during one wrapper update and enter them into the slot
+/// model in the order they were made. Returns false after recording a violation.
+fn judge_writes(rep: &mut Report, wrapper: &str, sub: &'static str, case: u64, round: usize, script: &[WriteOp], wlog: &[WriteRec], m: &mut Slots, hist: &dyn Fn() -> String) -> bool {
+    for w in wlog {
+        let op = script[w.idx];
+        let site = match op.site { 's' => "impl_set", 'u' => "update", _ => "get" };
+        let target = if op.own { "own" } else { "external" };
+        let what = match op.d { WDatum::S(..) => "state", WDatum::C(..) => "command" };
+        let desc = format!("the inner object's {}() wrote {:?} to the {} terminal", site, op.d, if op.own { "wrapper's own" } else { "connected external" });
+        rep.eval();
+        match &w.res {
+            Err(msg) => {
+                rep.violation(&format!("C20/{}/inner-writes-terminal/panic", wrapper), sub, case, format!("round {}: {}: the write panicked: {}; {}", round, desc, msg, hist()));
+                return false;
+            }
+            Ok(Err(e)) => {
+                rep.violation(&format!("C20/{}/inner-writes-terminal/error", wrapper), sub, case, format!("round {}: {}: the write returned {:?}; {}", round, desc, e, hist()));
+                return false;
+            }
+            Ok(Ok(())) => {}
+        }
+        match &w.back_ok {
+            Err(msg) => {
+                rep.violation(&format!("C20/{}/inner-writes-terminal/panic", wrapper), sub, case, format!("round {}: {}: reading the slot back panicked: {}; {}", round, desc, msg, hist()));
+                return false;
+            }
+            Ok(false) => {
+                rep.violation(&format!("C20/{}/inner-writes-terminal/lost", wrapper), sub, case, format!("round {}: {}: the slot does not hold it immediately afterwards; {}", round, desc, hist()));
+                return false;
+            }
+            Ok(true) => {}
+        }
+        rep.tally(&format!("{}_inner_writes/in={}/to={}_{}", wrapper, site, target, what));
+        match (op.own, op.d) {
+            (true, WDatum::S(t, v)) => m.own_s = Some(Datum::new(Time(t), st(v))),
+            (true, WDatum::C(t, c)) => m.own_c = Some(Datum::new(Time(t), c)),
+            (false, WDatum::S(t, v)) => m.ext_s = Some(Datum::new(Time(t), st(v))),
+            (false, WDatum::C(t, c)) => m.ext_c = Some(Datum::new(Time(t), c)),
+        }
+    }
+    true
+}
+/// After the wrapper's update: the real slots hold what the model (third-party writes included) says.
+/// `own_state_judged` = false for the encoder wrapper, whose own state slot has its own oracle.
+fn check_slots(rep: &mut Report, wrapper: &str, sub: &'static str, case: u64, round: usize, term: &Term<'_>, ext: &Term<'_>, m: &Slots, own_state_judged: bool, own_command_judged: bool, hist: &dyn Fn() -> String) -> bool {
+    rep.eval();
+    let (a, b, c, d) = (own_state(term), own_command(term), own_state(ext), own_command(ext));
+    let ok = (!own_state_judged || ds_same(&a, &m.own_s)) && (!own_command_judged || dc_same(&b, &m.own_c)) && ds_same(&c, &m.ext_s) && dc_same(&d, &m.ext_c);
+    if !ok {
+        rep.violation(&format!("C20/{}/inner-writes-terminal/lost", wrapper), sub, case, format!("round {}: after the wrapper's update the slots hold own ({:?}, {:?}) external ({:?}, {:?}); written by the monitor and by the inner object: own ({:?}, {:?}) external ({:?}, {:?}) (own state judged: {}, own command judged: {}); {}", round, a, b, c, d, m.own_s, m.own_c, m.ext_s, m.ext_c, own_state_judged, own_command_judged, hist()));
+        return false;
+    }
+    rep.tally(&format!("{}_slots_after_inner_writes_compared", wrapper));
+    true
+}
+/// Scripted inner writes for a history. Stamps are fresh: newer than every stamp used so far in the
+/// history (steps <= 5e9 ns, at most 2 writes per round, so |t| stays below 2^41).
+/// `sites`: permitted (method, to own terminal) pairs for this wrapper.
+fn gen_writes(rng: &mut Rng, ops: &[TermOps], v: Vals, sites: &[(char, bool)]) -> Vec<Vec<WriteOp>> {
+    let p = *rng.pick(&[0.3, 0.7]);
+    let mut mx: Option<i64> = None;
+    let mut out = Vec::with_capacity(ops.len());
+    for o in ops {
+        for t in [o.ext_s.map(|x| x.0), o.ext_c.map(|x| x.0), o.own_s.map(|x| x.0), o.own_c.map(|x| x.0)].into_iter().flatten() {
+            mx = Some(mx.map(|m| m.max(t)).unwrap_or(t));
+        }
+        let mut ws = Vec::new();
+        if rng.chance(p) {
+            for _ in 0..1 + rng.usize(2) {
+                let (site, own) = *rng.pick(sites);
+                let t = match mx {
+                    Some(m) => m + rng.step_ns(1, 5_000_000_000),
+                    None => rng.range_i64(-(1i64 << 39), 1i64 << 39),
+                };
+                mx = Some(t);
+                let d = if rng.chance(0.6) { WDatum::S(t, [val(rng, v), val(rng, v), val(rng, v)]) } else { WDatum::C(t, gen_cmd(rng, v)) };
+                ws.push(WriteOp { site, own, d });
+            }
+        }
+        out.push(ws);
+    }
+    out
+}
+const SETTABLE_WRITE_SITES: [(char, bool); 3] = [('u', true), ('u', false), ('s', false)];
+const GETTER_WRITE_SITES: [(char, bool); 3] = [('u', true), ('u', false), ('g', false)];
 // ---- following stratum ---------------------------------------------------------------------------
 /// What one followed getter of the wrapper's own terminal does in a round.
 #[derive(Clone, Copy, Debug, PartialEq)]
@@ -773,10 +924,10 @@ fn gen_act(rng: &mut Rng) -> Vec<SetRound> {
     let (pr, pu) = *rng.pick(&[(0.0, 0.0), (0.15, 0.1), (0.4, 0.3)]);
     tr.ops.into_iter().map(|ops| { let (reject, upd_err) = gen_inner(rng, pr, pu); SetRound { ops, reject, upd_err } }).collect()
 }
-fn run_act(rep: &mut Report, sub: &'static str, case: u64, rounds: &[SetRound], observe: Option<(bool, bool)>, follow: Option<&[FollowRound]>) {
+fn run_act(rep: &mut Report, sub: &'static str, case: u64, rounds: &[SetRound], observe: Option<(bool, bool)>, follow: Option<&[FollowRound]>, writes: Option<&[Vec<WriteOp>]>) {
     let ext: Term<'_> = Terminal::new();
     let rec = rc(RecSettable::<TerminalData>::new());
-    let probe = observe.map(|_| rc(Probe { own: None, ext: None, log: Vec::new() }));
+    let probe = if observe.is_some() || writes.is_some() { Some(rc(Probe::new())) } else { None };
     let mut w = ActuatorWrapper::new(Shared::new(rec.clone(), probe.clone()));
     let term = w.get_terminal();
     if let (Some(p), Some((own, other))) = (&probe, observe) {
@@ -784,11 +935,16 @@ fn run_act(rep: &mut Report, sub: &'static str, case: u64, rounds: &[SetRound], 
         p.own = if own { Some(term) } else { None };
         p.ext = if other { Some(&ext) } else { None };
     }
+    if let (Some(p), Some(_)) = (&probe, writes) {
+        let mut p = p.borrow_mut();
+        p.w_own = Some(term);
+        p.w_ext = Some(&ext);
+    }
     let mut slots = Slots::default();
     let mut followed = follow.map(|_| Followed::attach(term));
     let mut fseq: Vec<(u8, u8)> = Vec::new();
     let mut seq: Vec<(u8, u8)> = Vec::with_capacity(rounds.len());
-    let hist = || format!("inner object holds (own terminal, external terminal) = {:?}; own terminal follows getters: {:?}; rounds={:?}", observe, follow, rounds);
+    let hist = || format!("inner object holds (own terminal, external terminal) = {:?}; own terminal follows getters: {:?}; inner object writes: {:?}; rounds={:?}", observe, follow, writes, rounds);
     for (i, r) in rounds.iter().enumerate() {
         apply(&r.ops, term, &ext);
         slots.note(&r.ops);
@@ -805,8 +961,14 @@ fn run_act(rep: &mut Report, sub: &'static str, case: u64, rounds: &[SetRound], 
             m.reject_with = r.reject.unwrap_or(9);
             m.update_err = r.upd_err;
         }
-        let exp_views = if probe.is_some() { expected_views(term, &ext, &slots) } else { None };
+        let exp_views = if observe.is_some() { expected_views(term, &ext, &slots) } else { None };
         let o0p = probe.as_ref().map(|p| p.borrow().log.len()).unwrap_or(0);
+        if let (Some(p), Some(ws)) = (&probe, writes) {
+            let mut p = p.borrow_mut();
+            p.script = ws[i].clone();
+            p.done = vec![false; ws[i].len()];
+            p.wlog.clear();
+        }
         let pre_pull = read_td(term);
         let before = match if let Some(n) = &pulled { scratch_read(n) } else { pre_pull.clone() } {
             Ok(Ok(b)) => b,
@@ -849,7 +1011,7 @@ fn run_act(rep: &mut Report, sub: &'static str, case: u64, rounds: &[SetRound], 
         // ---- (o) observing inner object: its reads of the terminals neither panic nor differ from
         // what the terminals showed immediately before the update (judged before anything else so that
         // a panic inside the inner object is attributed to the read that caused it)
-        if let Some(p) = &probe {
+        if let (Some(p), Some(_)) = (&probe, observe) {
             let obs: Vec<Obs> = p.borrow().log[o0p..].to_vec();
             if rep.verbose {
                 eprintln!("round {}: inner object observed {:?}", i, obs);
@@ -861,6 +1023,19 @@ fn run_act(rep: &mut Report, sub: &'static str, case: u64, rounds: &[SetRound], 
                     }
                 }
                 None => rep.tally("actuator_monitor_pre_read_failed(not_judged)"),
+            }
+        }
+        // ---- (w) writing inner object: its writes neither panic nor get lost; they enter the model
+        if let (Some(p), Some(ws)) = (&probe, writes) {
+            let wlog: Vec<WriteRec> = p.borrow().wlog.clone();
+            if rep.verbose {
+                eprintln!("round {}: inner object wrote {:?}", i, wlog);
+            }
+            if !judge_writes(rep, "actuator", sub, case, i, &ws[i], &wlog, &mut slots, &hist) {
+                return;
+            }
+            if res.is_ok() && !check_slots(rep, "actuator", sub, case, i, term, &ext, &slots, true, true, &hist) {
+                return;
             }
         }
         let res = match res {
@@ -919,7 +1094,7 @@ fn run_act(rep: &mut Report, sub: &'static str, case: u64, rounds: &[SetRound], 
             rep.tally(if set_failed { "actuator_set_errors_propagated" } else { "actuator_update_errors_propagated" });
         }
     }
-    rep.distinct((sub, seq, observe, fseq));
+    rep.distinct((sub, seq, observe, fseq, writes.map(|w| w.iter().map(|r| r.iter().map(|o| (o.site, o.own, matches!(o.d, WDatum::S(..)))).collect::<Vec<_>>()).collect::<Vec<_>>())));
     if rep.want_sample(sub) && rounds.iter().any(|r| r.ops.ext_s.is_some() || r.ops.own_c.is_some()) {
         rep.sample(sub, format!("{} rounds, first 3: {:?}; followed getters, first 3: {:?}", rounds.len(), &rounds[..rounds.len().min(3)], follow.map(|f| &f[..f.len().min(3)])));
     }
@@ -965,10 +1140,10 @@ fn gen_enc(rng: &mut Rng) -> Vec<EncRound> {
         })
         .collect()
 }
-fn run_enc(rep: &mut Report, sub: &'static str, case: u64, rounds: &[EncRound], observe: Option<(bool, bool)>, follow: Option<&[FollowRound]>) {
+fn run_enc(rep: &mut Report, sub: &'static str, case: u64, rounds: &[EncRound], observe: Option<(bool, bool)>, follow: Option<&[FollowRound]>, writes: Option<&[Vec<WriteOp>]>) {
     let ext: Term<'_> = Terminal::new();
     let gs = rc(GState { cur: Ok(None), next: Ok(None), upd_err: None, updates: 0, gets: 0 });
-    let probe = observe.map(|_| rc(Probe { own: None, ext: None, log: Vec::new() }));
+    let probe = if observe.is_some() || writes.is_some() { Some(rc(Probe::new())) } else { None };
     let mut w = GetterStateDeviceWrapper::new(SGetter(gs.clone(), probe.clone()));
     let term = w.get_terminal();
     if let (Some(p), Some((own, other))) = (&probe, observe) {
@@ -976,11 +1151,16 @@ fn run_enc(rep: &mut Report, sub: &'static str, case: u64, rounds: &[EncRound], 
         p.own = if own { Some(term) } else { None };
         p.ext = if other { Some(&ext) } else { None };
     }
+    if let (Some(p), Some(_)) = (&probe, writes) {
+        let mut p = p.borrow_mut();
+        p.w_own = Some(term);
+        p.w_ext = Some(&ext);
+    }
     let mut slots = Slots::default();
     let mut followed = follow.map(|_| Followed::attach(term));
     let mut fseq: Vec<(u8, u8)> = Vec::new();
     let mut seq: Vec<(u8, bool, bool)> = Vec::with_capacity(rounds.len());
-    let hist = || format!("inner object holds (own terminal, external terminal) = {:?}; own terminal follows getters: {:?}; rounds={:?}", observe, follow, rounds);
+    let hist = || format!("inner object holds (own terminal, external terminal) = {:?}; own terminal follows getters: {:?}; inner object writes: {:?}; rounds={:?}", observe, follow, writes, rounds);
     for (i, r) in rounds.iter().enumerate() {
         apply(&r.ops, term, &ext);
         slots.note(&r.ops);
@@ -989,8 +1169,14 @@ fn run_enc(rep: &mut Report, sub: &'static str, case: u64, rounds: &[EncRound], 
             fseq.push((fr[i].s.kind(), fr[i].c.kind()));
         }
         let (fol_s, fol_c) = followed.as_ref().map(|f| (f.cur_s, f.cur_c)).unwrap_or((None, None));
-        let exp_views = if probe.is_some() { expected_views(term, &ext, &slots) } else { None };
+        let exp_views = if observe.is_some() { expected_views(term, &ext, &slots) } else { None };
         let o0p = probe.as_ref().map(|p| p.borrow().log.len()).unwrap_or(0);
+        if let (Some(p), Some(ws)) = (&probe, writes) {
+            let mut p = p.borrow_mut();
+            p.script = ws[i].clone();
+            p.done = vec![false; ws[i].len()];
+            p.wlog.clear();
+        }
         let present: Out<State> = match &r.getter {
             Ev::Some(t, v) => Ok(Some(Datum::new(Time(*t), st(*v)))),
             Ev::None => Ok(None),
@@ -1015,7 +1201,36 @@ fn run_enc(rep: &mut Report, sub: &'static str, case: u64, rounds: &[EncRound], 
         // ---- (o) observing inner getter: reads made in update() and in the first get() after it
         // causally precede the write of that state, so they must show the terminals as they were
         // immediately before the wrapper's update; every read must be panic-free
-        if let Some(p) = &probe {
+        // ---- (w) writing inner getter: its writes neither panic nor get lost; they enter the model.
+        // The own STATE slot is judged by (b) below (a present getter state legitimately overwrites an
+        // inner write made in update()); the own command slot and the external terminal keep the writes.
+        let (mut base_s, mut base_c) = (s0, c0);
+        if let (Some(p), Some(ws)) = (&probe, writes) {
+            let wlog: Vec<WriteRec> = p.borrow().wlog.clone();
+            if rep.verbose {
+                eprintln!("round {}: inner object wrote {:?}", i, wlog);
+            }
+            let (ms, mc) = (slots.own_s, slots.own_c);
+            if !judge_writes(rep, "encoder", sub, case, i, &ws[i], &wlog, &mut slots, &hist) {
+                return;
+            }
+            // an own slot the inner object wrote to now holds that datum instead of its old content
+            if wlog.iter().any(|w| ws[i][w.idx].own && matches!(ws[i][w.idx].d, WDatum::S(..))) {
+                base_s = slots.own_s;
+            } else {
+                slots.own_s = ms;
+            }
+            if wlog.iter().any(|w| ws[i][w.idx].own && matches!(ws[i][w.idx].d, WDatum::C(..))) {
+                base_c = slots.own_c;
+            } else {
+                slots.own_c = mc;
+            }
+            let wrote_own_c = wlog.iter().any(|w| ws[i][w.idx].own && matches!(ws[i][w.idx].d, WDatum::C(..)));
+            if res.is_ok() && !check_slots(rep, "encoder", sub, case, i, term, &ext, &slots, false, wrote_own_c, &hist) {
+                return;
+            }
+        }
+        if let (Some(p), Some(_)) = (&probe, observe) {
             let obs: Vec<Obs> = p.borrow().log[o0p..].to_vec();
             if rep.verbose {
                 eprintln!("round {}: inner object observed {:?}", i, obs);
@@ -1049,7 +1264,8 @@ fn run_enc(rep: &mut Report, sub: &'static str, case: u64, rounds: &[EncRound], 
         }
         // following stratum: whether / when the wrapper lets its terminal pull on a path that writes
         // nothing is not in the statement, so each own slot may hold its old content or the followed datum
-        let untouched = (ds_same(&s0, &s1) || (fol_s.is_some() && ds_same(&fol_s, &s1))) && (dc_same(&c0, &c1) || (fol_c.is_some() && dc_same(&fol_c, &c1)));
+        // (writing stratum: "old content" of a slot the inner object wrote to is what it wrote)
+        let untouched = (ds_same(&base_s, &s1) || (fol_s.is_some() && ds_same(&fol_s, &s1))) && (dc_same(&base_c, &c1) || (fol_c.is_some() && dc_same(&fol_c, &c1)));
         let (expected, write): (NothingOrError<E>, Option<Datum<State>>) = match (r.upd_err, &present) {
             (Some(e), _) => (Err(Error::Other(e)), None),
             (None, Err(e)) => (Err(*e), None),
@@ -1078,7 +1294,7 @@ fn run_enc(rep: &mut Report, sub: &'static str, case: u64, rounds: &[EncRound], 
             None => {
                 if !untouched {
                     let which = if r.upd_err.is_some() { "update-error" } else if present.is_err() { "get-error" } else { "absent" };
-                    rep.violation(&format!("C20/encoder/terminal-touched/{}", which), sub, case, format!("round {}: getter {:?}, inner update error {:?}: terminal own slots changed from ({:?}, {:?}) to ({:?}, {:?}); {}", i, r.getter, r.upd_err, s0, c0, s1, c1, hist()));
+                    rep.violation(&format!("C20/encoder/terminal-touched/{}", which), sub, case, format!("round {}: getter {:?}, inner update error {:?}: terminal own slots changed from ({:?}, {:?}) to ({:?}, {:?}); {}", i, r.getter, r.upd_err, base_s, base_c, s1, c1, hist()));
                     return;
                 }
                 rep.tally(if expected.is_err() { "encoder_untouched_on_error" } else { "encoder_untouched_on_absent" });
@@ -1102,7 +1318,7 @@ fn run_enc(rep: &mut Report, sub: &'static str, case: u64, rounds: &[EncRound], 
             rep.tally(if r.upd_err.is_some() { "encoder_update_errors_propagated" } else { "encoder_get_errors_propagated" });
         }
     }
-    rep.distinct((sub, seq, observe, fseq));
+    rep.distinct((sub, seq, observe, fseq, writes.map(|w| w.iter().map(|r| r.iter().map(|o| (o.site, o.own, matches!(o.d, WDatum::S(..)))).collect::<Vec<_>>()).collect::<Vec<_>>())));
     if rep.want_sample(sub) {
         rep.sample(sub, format!("{} rounds, first 3: {:?}; followed getters, first 3: {:?}", rounds.len(), &rounds[..rounds.len().min(3)], follow.map(|f| &f[..f.len().min(3)])));
     }
@@ -1142,11 +1358,11 @@ fn gen_pid(rng: &mut Rng) -> PidCase {
         rounds,
     }
 }
-fn run_pid(rep: &mut Report, sub: &'static str, case: u64, c: &PidCase, observe: Option<(bool, bool)>, follow: Option<&[FollowRound]>) {
-    let hist = || format!("inner object holds (own terminal, external terminal) = {:?}; own terminal follows getters: {:?}; case={:?}", observe, follow, c);
+fn run_pid(rep: &mut Report, sub: &'static str, case: u64, c: &PidCase, observe: Option<(bool, bool)>, follow: Option<&[FollowRound]>, writes: Option<&[Vec<WriteOp>]>) {
+    let hist = || format!("inner object holds (own terminal, external terminal) = {:?}; own terminal follows getters: {:?}; inner object writes: {:?}; case={:?}", observe, follow, writes, c);
     let ext: Term<'_> = Terminal::new();
     let rec = rc(RecSettable::<f32>::new());
-    let probe = observe.map(|_| rc(Probe { own: None, ext: None, log: Vec::new() }));
+    let probe = if observe.is_some() || writes.is_some() { Some(rc(Probe::new())) } else { None };
     let built = catch(|| PIDWrapper::new(Shared::new(rec.clone(), probe.clone()), Time(c.t0), st(c.s0), c.c0, kvals(&c.gains)));
     let mut w = match built {
         Ok(w) => w,
@@ -1161,6 +1377,11 @@ fn run_pid(rep: &mut Report, sub: &'static str, case: u64, c: &PidCase, observe:
         let mut p = p.borrow_mut();
         p.own = if own { Some(term) } else { None };
         p.ext = if other { Some(&ext) } else { None };
+    }
+    if let (Some(p), Some(_)) = (&probe, writes) {
+        let mut p = p.borrow_mut();
+        p.w_own = Some(term);
+        p.w_ext = Some(&ext);
     }
     let mut slots = Slots::default();
     let mut followed = follow.map(|_| Followed::attach(term));
@@ -1191,8 +1412,14 @@ fn run_pid(rep: &mut Report, sub: &'static str, case: u64, c: &PidCase, observe:
             m.reject_with = r.reject.unwrap_or(9);
             m.update_err = r.upd_err;
         }
-        let exp_views = if probe.is_some() { expected_views(term, &ext, &slots) } else { None };
+        let exp_views = if observe.is_some() { expected_views(term, &ext, &slots) } else { None };
         let o0p = probe.as_ref().map(|p| p.borrow().log.len()).unwrap_or(0);
+        if let (Some(p), Some(ws)) = (&probe, writes) {
+            let mut p = p.borrow_mut();
+            p.script = ws[i].clone();
+            p.done = vec![false; ws[i].len()];
+            p.wlog.clear();
+        }
         let pre_pull = read_td(term);
         let before = match if let Some(n) = &pulled { scratch_read(n) } else { pre_pull.clone() } {
             Ok(Ok(b)) => b,
@@ -1259,7 +1486,7 @@ fn run_pid(rep: &mut Report, sub: &'static str, case: u64, c: &PidCase, observe:
         }
         // ---- (o) observing motor: its reads of the terminals (in update() and in the impl_set its
         // following triggers) neither panic nor differ from what the terminals showed before the update
-        if let Some(p) = &probe {
+        if let (Some(p), Some(_)) = (&probe, observe) {
             let obs: Vec<Obs> = p.borrow().log[o0p..].to_vec();
             if rep.verbose {
                 eprintln!("round {}: inner object observed {:?}", i, obs);
@@ -1271,6 +1498,19 @@ fn run_pid(rep: &mut Report, sub: &'static str, case: u64, c: &PidCase, observe:
                     }
                 }
                 None => rep.tally("pid_monitor_pre_read_failed(not_judged)"),
+            }
+        }
+        // ---- (w) writing motor: its writes neither panic nor get lost; they enter the model
+        if let (Some(p), Some(ws)) = (&probe, writes) {
+            let wlog: Vec<WriteRec> = p.borrow().wlog.clone();
+            if rep.verbose {
+                eprintln!("round {}: inner object wrote {:?}", i, wlog);
+            }
+            if !judge_writes(rep, "pid", sub, case, i, &ws[i], &wlog, &mut slots, &hist) {
+                return;
+            }
+            if res.is_ok() && !check_slots(rep, "pid", sub, case, i, term, &ext, &slots, true, true, &hist) {
+                return;
             }
         }
         let res = match res {
@@ -1333,7 +1573,7 @@ fn run_pid(rep: &mut Report, sub: &'static str, case: u64, c: &PidCase, observe:
             rep.tally("pid_motor_errors_propagated");
         }
     }
-    rep.distinct((sub, seq, c.strict, observe, fseq));
+    rep.distinct((sub, seq, c.strict, observe, fseq, writes.map(|w| w.iter().map(|r| r.iter().map(|o| (o.site, o.own, matches!(o.d, WDatum::S(..)))).collect::<Vec<_>>()).collect::<Vec<_>>())));
     if rep.want_sample(sub) {
         rep.sample(sub, format!("t0={} s0={:?} c0={:?} gains={:?} strict={} {} rounds, first 3: {:?}", c.t0, c.s0, c.c0, c.gains, c.strict, c.rounds.len(), &c.rounds[..c.rounds.len().min(3)]));
     }
@@ -1371,7 +1611,7 @@ fn main() {
                     let r = SetRound { ops, reject: if inner & 1 != 0 { Some(5) } else { None }, upd_err: if inner & 2 != 0 { Some(7) } else { None } };
                     // second round: same terminal contents, inner object healthy again
                     let r2 = SetRound { ops: TermOps::default(), reject: None, upd_err: None };
-                    run_act(&mut rep, "act-grid", case, &[r, r2], None, None);
+                    run_act(&mut rep, "act-grid", case, &[r, r2], None, None, None);
                 }
             }
         }
@@ -1381,14 +1621,14 @@ fn main() {
     for case in args.cases("actuator", 60_000, 3_000_000) {
         let mut rng = Rng::new(args.seed, 2002, case);
         let rounds = gen_act(&mut rng);
-        run_act(&mut rep, "actuator", case, &rounds, None, None);
+        run_act(&mut rep, "actuator", case, &rounds, None, None, None);
     }
     // ---- 1c. actuator with an inner settable that reads the terminals from inside set / update
     for case in args.cases("act-observing", 20_000, 400_000) {
         let mut rng = Rng::new(args.seed, 2006, case);
         let rounds = gen_act(&mut rng);
         let h = gen_handles(&mut rng);
-        run_act(&mut rep, "act-observing", case, &rounds, Some(h), None);
+        run_act(&mut rep, "act-observing", case, &rounds, Some(h), None, None);
     }
     // ---- 2a. encoder: every single-round configuration
     {
@@ -1417,7 +1657,7 @@ fn main() {
                     let r = EncRound { ops, getter, upd_err: if ue != 0 { Some(3) } else { None } };
                     let r2 = EncRound { ops: TermOps::default(), getter: Ev::Some(t + 2, s4), upd_err: None };
                     let r3 = EncRound { ops: TermOps::default(), getter: Ev::None, upd_err: None };
-                    run_enc(&mut rep, "enc-grid", case, &[r, r2, r3], None, None);
+                    run_enc(&mut rep, "enc-grid", case, &[r, r2, r3], None, None, None);
                 }
             }
         }
@@ -1427,27 +1667,27 @@ fn main() {
     for case in args.cases("encoder", 60_000, 3_000_000) {
         let mut rng = Rng::new(args.seed, 2004, case);
         let rounds = gen_enc(&mut rng);
-        run_enc(&mut rep, "encoder", case, &rounds, None, None);
+        run_enc(&mut rep, "encoder", case, &rounds, None, None, None);
     }
     // ---- 2c. encoder with an inner getter that reads the terminals from inside update / get
     for case in args.cases("enc-observing", 20_000, 400_000) {
         let mut rng = Rng::new(args.seed, 2007, case);
         let rounds = gen_enc(&mut rng);
         let h = gen_handles(&mut rng);
-        run_enc(&mut rep, "enc-observing", case, &rounds, Some(h), None);
+        run_enc(&mut rep, "enc-observing", case, &rounds, Some(h), None, None);
     }
     // ---- 3. PID wrapper vs twin CommandPID
     for case in args.cases("pid", 60_000, 3_000_000) {
         let mut rng = Rng::new(args.seed, 2005, case);
         let c = gen_pid(&mut rng);
-        run_pid(&mut rep, "pid", case, &c, None, None);
+        run_pid(&mut rep, "pid", case, &c, None, None, None);
     }
     // ---- 3b. PID wrapper with a motor that reads the terminals from inside update / set
     for case in args.cases("pid-observing", 20_000, 400_000) {
         let mut rng = Rng::new(args.seed, 2008, case);
         let c = gen_pid(&mut rng);
         let h = gen_handles(&mut rng);
-        run_pid(&mut rep, "pid-observing", case, &c, Some(h), None);
+        run_pid(&mut rep, "pid-observing", case, &c, Some(h), None, None);
     }
     // ---- 4. following stratum: the wrapper's own terminal receives data through followed getters
     for case in args.cases("act-following", 20_000, 400_000) {
@@ -1455,21 +1695,43 @@ fn main() {
         let rounds = gen_act(&mut rng);
         let ops: Vec<TermOps> = rounds.iter().map(|r| r.ops).collect();
         let fl = gen_follow(&mut rng, &ops, Vals::Moderate);
-        run_act(&mut rep, "act-following", case, &rounds, None, Some(&fl));
+        run_act(&mut rep, "act-following", case, &rounds, None, Some(&fl), None);
     }
     for case in args.cases("enc-following", 20_000, 400_000) {
         let mut rng = Rng::new(args.seed, 2010, case);
         let rounds = gen_enc(&mut rng);
         let ops: Vec<TermOps> = rounds.iter().map(|r| r.ops).collect();
         let fl = gen_follow(&mut rng, &ops, Vals::Moderate);
-        run_enc(&mut rep, "enc-following", case, &rounds, None, Some(&fl));
+        run_enc(&mut rep, "enc-following", case, &rounds, None, Some(&fl), None);
     }
     for case in args.cases("pid-following", 20_000, 400_000) {
         let mut rng = Rng::new(args.seed, 2011, case);
         let c = gen_pid(&mut rng);
         let ops: Vec<TermOps> = c.rounds.iter().map(|r| r.ops).collect();
         let fl = gen_follow(&mut rng, &ops, Vals::Moderate);
-        run_pid(&mut rep, "pid-following", case, &c, None, Some(&fl));
+        run_pid(&mut rep, "pid-following", case, &c, None, Some(&fl), None);
+    }
+    // ---- 5. writing stratum: the inner object writes to the terminals from inside its methods
+    for case in args.cases("act-writing", 20_000, 400_000) {
+        let mut rng = Rng::new(args.seed, 2012, case);
+        let rounds = gen_act(&mut rng);
+        let ops: Vec<TermOps> = rounds.iter().map(|r| r.ops).collect();
+        let ws = gen_writes(&mut rng, &ops, Vals::Moderate, &SETTABLE_WRITE_SITES);
+        run_act(&mut rep, "act-writing", case, &rounds, None, None, Some(&ws));
+    }
+    for case in args.cases("enc-writing", 20_000, 400_000) {
+        let mut rng = Rng::new(args.seed, 2013, case);
+        let rounds = gen_enc(&mut rng);
+        let ops: Vec<TermOps> = rounds.iter().map(|r| r.ops).collect();
+        let ws = gen_writes(&mut rng, &ops, Vals::Moderate, &GETTER_WRITE_SITES);
+        run_enc(&mut rep, "enc-writing", case, &rounds, None, None, Some(&ws));
+    }
+    for case in args.cases("pid-writing", 20_000, 400_000) {
+        let mut rng = Rng::new(args.seed, 2014, case);
+        let c = gen_pid(&mut rng);
+        let ops: Vec<TermOps> = c.rounds.iter().map(|r| r.ops).collect();
+        let ws = gen_writes(&mut rng, &ops, Vals::Moderate, &SETTABLE_WRITE_SITES);
+        run_pid(&mut rep, "pid-writing", case, &c, None, None, Some(&ws));
     }
     // coverage the verdict depends on (merged over shards; thorough budgets are 50x larger)
     let k = if args.thorough { 200 } else { 10 };
@@ -1493,6 +1755,17 @@ fn main() {
     for w in ["actuator", "encoder", "pid"] {
         rep.floor(&format!("{}_inner_reads_compared", w), 100_000 * k);
         rep.floor(&format!("{}_inner_observations/in=update", w), 5_000 * k);
+    }
+    // writing stratum (20k / 400k histories per wrapper)
+    for w in ["actuator", "encoder", "pid"] {
+        rep.floor(&format!("{}_slots_after_inner_writes_compared", w), 10_000 * k);
+        let other = if w == "encoder" { "get" } else { "impl_set" };
+        for t in ["own_state", "own_command", "external_state", "external_command"] {
+            rep.floor(&format!("{}_inner_writes/in=update/to={}", w, t), 1_000 * k);
+        }
+        for t in ["external_state", "external_command"] {
+            rep.floor(&format!("{}_inner_writes/in={}/to={}", w, other, t), 1_000 * k);
+        }
     }
     // following stratum (20k / 400k histories per wrapper)
     for w in ["actuator", "pid"] {
